@@ -537,6 +537,11 @@ def check_diagram_insert(case, ctx):
             return
     elif name in ("obsfcst", "change", "fss") and dim == "leadtime":
         return          # their default axis is the lead time
+    if name == "change" and dim == "time":
+        # the change diagram pairs each initialisation time with the next one in the dataset: an added time between two others
+        # alters which times are consecutive, which is not "the same data with the missing cases deleted" (CORRECTIONS.md)
+        ctx.label("change-diagram-with-an-inserted-time-skipped")
+        return
     if case.get("bin") and "-b" in dargs and dargs[dargs.index("-b") + 1] in ("above", "below", "above=", "below="):
         dargs[dargs.index("-b") + 1] = case["bin"]
     elif case.get("bin") and name == "fss" and "-b" not in dargs:
